@@ -44,7 +44,7 @@ def bounds(tier):
 
 def chunks(tier):
     out = [("S", d) for d in range(1, 10)] + [("S", "x")]
-    out += [("U", i) for i in range(8)] + [("R",), ("Q",), ("P",), ("PS",)]
+    out += [("U", i) for i in range(8)] + [("R",), ("Q",), ("P",), ("PS",), ("T", 0), ("T", 1)]
     return out
 
 
@@ -325,6 +325,60 @@ def check_param_system(res, units_seq, fmtname):
         res.violation("C20|ReactionSystem.%s|line-differs-from-single-reaction-print" % fmtname, "system with k units %r printed as %r, its reactions alone print as %r" % (case["units"], got, exp), case, got, exp)
 
 
+TABLE_KEYS = ["H2O", "Fe+3", "SO4-2", "NaCl"]
+
+
+def check_table(res, mants, exps, form):
+    """per-substance HTML table: every cell denotes the value it was given (5 significant digits), next to its substance;
+    rendering the same table again, or changing the container afterwards, does not change what it shows"""
+    from chempy.printing.table import as_per_substance_html_table
+    from chempy import Substance
+
+    vals = [float("%se%d" % (m, e)) for m, e in zip(mants, exps)]
+    case = dict(layer="T", mants=list(mants), exps=list(exps), form=form)
+    res.states += 1
+    res.transitions += 3
+    res.evaluations += 3
+    res.nontrivial += 1
+    names = {k: Substance.from_formula(k).html_name for k in TABLE_KEYS}
+    try:
+        cont = dict(zip(TABLE_KEYS, vals)) if form == "dict" else list(vals)
+        kw = {} if form == "dict" else dict(substances=__import__("collections").OrderedDict((k, Substance.from_formula(k)) for k in TABLE_KEYS))
+        tab = as_per_substance_html_table(cont, header="c", **kw)
+        first = tab._repr_html_()
+        second = tab._repr_html_()
+        if form == "dict":
+            cont[TABLE_KEYS[0]] = 123.0
+        else:
+            cont[0] = 123.0
+        third = tab._repr_html_()
+    except Exception as e:
+        res.outcomes["table-RAISES"] += 1
+        res.violation("C20|as_per_substance_html_table|raises", "table of %r (%s) raised %s" % (vals, form, type(e).__name__), case, "EXC %s" % type(e).__name__, None)
+        return
+    bad = None
+    cells = re.findall(r"<tr><td>(.*?)</td>\s*<td>(.*?)</td></tr>", first, re.S)
+    if [c[0] for c in cells] != [names[k] for k in TABLE_KEYS]:
+        bad = ("substances", [c[0] for c in cells])
+    else:
+        for (nm, txt), x in zip(cells, vals):
+            try:
+                sig, ex = parse_sci("html", txt)
+                val = (sig if sig is not None else Decimal(1)).scaleb(ex)
+            except Exception:
+                val = None
+            if val != round_sig(x, 5):
+                bad = ("value", "%s shown for %r" % (txt, x))
+                break
+    if bad is None and second != first:
+        bad = ("second-rendering-differs", second[:200])
+    if bad is None and third != first:
+        bad = ("changes-with-the-container-after-construction", third[:200])
+    res.outcomes["table-ok" if bad is None else "table-WRONG"] += 1
+    if bad:
+        res.violation("C20|as_per_substance_html_table|%s" % bad[0], "table of %r (%s): %s: %s" % (vals, form, bad[0], bad[1]), case, bad[1], first[:200])
+
+
 def _param_units():
     from chempy.units import default_units as u
 
@@ -379,6 +433,14 @@ def run_chunk(chunk, tier):
                         check_quantity(res, xs, p, fmt, uname, unit)
             res.symbols[uname] += 1
         res.sample(dict(layer="Q", x="3.14159e-7", unit="m/s"))
+    elif chunk[0] == "T":
+        form = ("dict", "list")[chunk[1]]
+        mants = ["1.00", "3.14159", "9.99996", "2.5"]
+        for e0 in b["exponents"][::3]:
+            for rot in range(4):
+                ms = mants[rot:] + mants[:rot]
+                check_table(res, ms, [e0, -e0 // 2, 0, 7], form)
+        res.sample(dict(layer="T", form=form, keys=TABLE_KEYS))
     elif chunk[0] == "PS":
         import itertools as it
         from chempy.units import default_units as u
@@ -410,6 +472,8 @@ def replay(case):
         sub = Result()
         check_roman(sub)
         res.violations = [v for v in sub.violations if v["case"]["n"] == case["n"]]
+    elif L == "T":
+        check_table(res, case["mants"], case["exps"], case["form"])
     elif L == "PS":
         from chempy.units import default_units as u
 
